@@ -122,6 +122,25 @@ ASSUMPTIONS = [
 ]
 
 
+@contract(P, "homogenous_poisson_bernoulli_approx_online[steps<=3]", [(EN, "homogenous_poisson_bernoulli_approx_online")])
+def bernoulli_online(c):
+    """the generator form (evaluated eagerly): for a CONCRETE number of steps (1, 2, 3 - the loop is unrolled; the
+    intensities, step time and every draw stay symbolic) it yields exactly that many boolean slices, each silent where
+    the intensity is zero and firing surely at saturating intensity"""
+    x = c.pw("intensity_hz")
+    dt = c.real("dt")
+    steps = c.choice("steps", [1, 2, 3])
+    c.require(x.f >= 0, dt > 0)
+    out = c.outcome(c.function(EN, "homogenous_poisson_bernoulli_approx_online"), x, steps, dt)
+    c.expect_return(out)
+    slices = list(out.value)
+    c.ensure("yields_exactly_steps_slices", len(slices) == steps)
+    c.ensure("every_slice_boolean_with_the_input_layout", all(sl.dtype == "bool" and sl.tlen is None for sl in slices))
+    c.ensure("silent_at_zero_intensity", z3.Implies(x.f == 0, z3.And(*[z3.Not(sl.f) for sl in slices])))
+    c.ensure("certain_at_saturating_intensity", z3.Implies(x.f / 1000 * dt.z >= 1, z3.And(*[sl.f for sl in slices])))
+    c.canary("canary_always_silent", z3.And(*[z3.Not(sl.f) for sl in slices]))
+
+
 EP = "inferno/neural/encoders/poisson.py"
 ES = "inferno/neural/encoders/special.py"
 EM = "inferno/neural/encoders/mixins.py"
